@@ -557,6 +557,54 @@ def _execute(plan, out, root, root_b, scratch):
             check_io("schema", entry, plan["schema_files"], False)
         if schema is None:
             return
+        # ---- one SchemaLoader: a load that fails (a file the schema refers
+        # to is missing), the file comes back, the same loader is asked again
+        # by every entry point: what the failed load left on the loader (a
+        # half-built schema in its cache ...) must not be what is handed out --
+        sub = [p_ for p_ in plan["schema_files"] if p_ != plan["schema_top"]]
+        if sub and ref_digest is not None:
+            victim = os.path.join(root, sub[-1])
+            if os.path.isfile(victim) and not os.path.islink(victim):
+                sl = ZConfig.loader.SchemaLoader()
+                os.rename(victim, victim + ".away")
+                try:
+                    for entry in ("abs-path", "url", "file-abs"):
+                        w.begin_op("schema:one-loader:missing:" + entry)
+                        so = ops.schema_outcome(lambda: _enter(
+                            entry, sfull, sl.loadURL, sl.loadFile))
+                        w.end_op("ok" if so["ok"] else so["cls"])
+                        out["evaluations"] += 1
+                        if so["ok"]:
+                            violation("missing-file-accepted", "schema",
+                                      "%s does not exist, yet the schema by "
+                                      "%s loaded" % (sub[-1], entry))
+                        elif not so.get("cfgerr"):
+                            violation("load-failed", "schema",
+                                      "a missing schema file: %s by %s"
+                                      % (ops.brief(so), entry))
+                finally:
+                    os.rename(victim + ".away", victim)
+                for entry in ("url", "abs-path", "file-abs", "rel-path"):
+                    w.begin_op("schema:one-loader:restored:" + entry)
+                    so = ops.schema_outcome(lambda: _enter(
+                        entry, sfull, sl.loadURL, sl.loadFile))
+                    w.end_op("ok" if so["ok"] else so["cls"])
+                    out["evaluations"] += 1
+                    if not so["ok"]:
+                        violation("load-failed", "schema-one-loader",
+                                  "one SchemaLoader after a failed load: "
+                                  "schema by %s raised %s"
+                                  % (entry, ops.brief(so)))
+                    elif canon.without_position_urls(so["digest"]) \
+                            != ref_digest:
+                        violation("entry-points-differ", "schema-one-loader",
+                                  "one SchemaLoader after a failed load: "
+                                  "schema by %s differs from a fresh load: %r"
+                                  % (entry, canon.digest_diff(
+                                      ref_digest,
+                                      canon.without_position_urls(
+                                          so["digest"]))))
+                probe("schema-loader-reused-after-failed-load")
         # ---- configuration through every entry point ------------------------------
         cfull = os.path.join(root, plan["config_top"])
         want = {"k": plan["expect_k"],
